@@ -223,6 +223,18 @@ theorem addStmts_induct {env : Env} (P : PState → Prop)
       simp only [h1, Res.bind_ok_eq] at h
       exact ih s1 st' (step _ _ _ hp h1) h
 
+theorem addStmts_append (env : Env) (a b : List Stmt) : ∀ (st : PState),
+    addStmts env st (a ++ b) = addStmts env st a >>= fun s => addStmts env s b := by
+  induction a with
+  | nil => intro st; simp [addStmts]
+  | cons s a ih =>
+    intro st
+    simp only [List.cons_append, addStmts]
+    cases addStmt env st s with
+    | err e l => rfl
+    | panic x => rfl
+    | ok s1 => simp only [Res.bind_ok_eq]; exact ih s1
+
 theorem OutInv.addStmts {env : Env} {st st' : PState} {ss : List Stmt} (hi : OutInv st)
     (h : addStmts env st ss = .ok st') : OutInv st' :=
   addStmts_induct OutInv (fun _ _ _ hp hs => hp.addStmt hs) ss st st' hi h
@@ -283,5 +295,51 @@ theorem eval_local_var (env : Env) (st : PState) (loc : Loc) (x : String) (v : V
     (h : lookupReg st.regs x = some v) :
     eval env st (.ref ⟨loc, [], [x]⟩) = .ok (v, { st with loc := loc }) := by
   simp [eval, evalObjRef, evalLocalRef, h]
+
+/-! ## the frames of a run, statement by statement -/
+
+/-- the frames statement `s` contributes when run in state `st`: those of the value of an
+expression statement, nothing for `let` / `import` -/
+def stmtFrames (env : Env) (st : PState) : Stmt → List Bytes
+  | .expr e => match eval env st e with
+    | .ok (v, _) => framesOf v
+    | _ => []
+  | _ => []
+
+/-- … and of a statement list, each statement run in the state its predecessors left -/
+def runFrames (env : Env) : PState → List Stmt → List Bytes
+  | _, [] => []
+  | st, s :: ss => stmtFrames env st s ++
+    (match addStmt env st s with
+     | .ok st' => runFrames env st' ss
+     | _ => [])
+
+theorem addStmt_frames {env : Env} {st st' : PState} {s : Stmt} (h : addStmt env st s = .ok st') :
+    st'.emitted.map (·.2) = st.emitted.map (·.2) ++ stmtFrames env st s := by
+  cases s with
+  | imp loc m => simp [stmtFrames, (addStmt_imp_ok h).2.1]
+  | assign loc t e =>
+    obtain ⟨v, st1, h1, h2, _⟩ := addStmt_assign_ok h
+    have : st1.emitted = st.emitted := (eval_onlyLH env e _ _ h1).2.2.2.2.2
+    subst h2
+    simp [stmtFrames, this]
+  | expr e =>
+    obtain ⟨v, st1, h1, _, h3, _⟩ := addStmt_expr_ok h
+    simp [stmtFrames, h1, h3, Function.comp_def]
+
+theorem addStmts_frames {env : Env} (ss : List Stmt) : ∀ {st st' : PState}, addStmts env st ss = .ok st' →
+    st'.emitted.map (·.2) = st.emitted.map (·.2) ++ runFrames env st ss := by
+  induction ss with
+  | nil => intro st st' h; simp only [addStmts] at h; cases h; simp [runFrames]
+  | cons s ss ih =>
+    intro st st' h
+    simp only [addStmts] at h
+    cases h1 : addStmt env st s with
+    | err e l => simp [h1] at h
+    | panic x => simp [h1] at h
+    | ok s1 =>
+      simp only [h1, Res.bind_ok_eq] at h
+      rw [ih h, addStmt_frames h1]
+      simp [runFrames, h1]
 
 end Resynth
